@@ -471,6 +471,14 @@ hexs(const std::vector<uint8_t> &v)
 	return s;
 }
 
+// weighted choice / element choice that do not collapse towards the first alternatives at small sizes
+template <typename T>
+inline rc::Gen<T>
+welem(std::initializer_list<std::pair<std::size_t, T>> l)
+{
+	return rc::gen::resize(100, rc::gen::weightedElement<T>(l));
+}
+
 // inRange that does not collapse at small sizes
 template <typename T>
 inline rc::Gen<T>
